@@ -51,7 +51,7 @@ fn main() {
     let tier = std::env::args().nth(2).unwrap_or_else(|| "quick".to_string());
     fs::create_dir_all(&out).unwrap();
     for def in family() {
-        if tier == "quick" && def.tier == "thorough" {
+        if tier == "quick" && (def.tier == "thorough" || def.tier.starts_with("quick-")) {
             continue;
         }
         let d = build_with(&def, None);
